@@ -298,7 +298,7 @@ def path_class(p):
         return "scratch"
     if p.startswith("outside/") or p == "outside":
         return "outside"
-    if base == "Breadlog.lock":
+    if base.startswith("Breadlog.lock"):
         return "lock"
     if base.endswith(".yaml"):
         return "config"
